@@ -33,6 +33,9 @@ def _resp(body, extra=b"", close=False, version=b"1.1"):
             + (b"Connection: close\r\n" if close else b"") + extra + b"\r\n" + body)
 
 
+BASE = {"a": "http://a", "b": "http://b", "a:81": "http://a:81", "s:a": "https://a"}
+
+
 def history(ctx, k=5, first=(), hosts=("a", "b")):
     import logging
 
@@ -49,7 +52,8 @@ def history(ctx, k=5, first=(), hosts=("a", "b")):
             proto = ResponseHandler(loop)
             tr = MemTransport()
             proto.connection_made(tr)
-            conns.append({"proto": proto, "tr": tr, "host": req.url.host, "answered": 0, "tainted": None, "seen": 0})
+            conns.append({"proto": proto, "tr": tr, "host": req.url.host, "answered": 0, "tainted": None, "seen": 0,
+                          "origin": f"{req.url.scheme}://{req.url.host}:{req.url.port}"})
             return proto
 
     async def mk():
@@ -60,7 +64,7 @@ def history(ctx, k=5, first=(), hosts=("a", "b")):
     trace = []
 
     async def do_get(host, path):
-        async with session.get(f"http://{host}{path}") as resp:
+        async with session.get(BASE[host] + path) as resp:
             body = await resp.read()
             return resp.status, body
 
@@ -87,6 +91,10 @@ def history(ctx, k=5, first=(), hosts=("a", "b")):
             for path, blk in reqs:
                 if (b"Host: " + c["host"].encode()) not in blk:
                     return fail("connection-reused-for-other-host")
+                # ... and for the same scheme and port (the pool key is the whole endpoint)
+                for call in calls:
+                    if call["path"].encode() == path and call["origin"] != c["origin"]:
+                        return fail("connection-reused-for-other-endpoint", conn=c["origin"], request=call["origin"])
             if c["tainted"] is not None and len(reqs) > c["tainted_at"]:
                 return fail("tainted-connection-reused:" + c["tainted"])
         for call in calls:
@@ -139,9 +147,12 @@ def history(ctx, k=5, first=(), hosts=("a", "b")):
         trace.append(list(op))
         if op[0] == "get":
             nreq += 1
-            path = f"/{op[1]}{nreq}"
+            path = "/" + op[1].replace(":", "_") + str(nreq)
             t = asyncio.Task(do_get(op[1], path), loop=loop)
-            calls.append({"task": t, "path": path, "host": op[1]})
+            from yarl import URL as _URL
+
+            u = _URL(BASE[op[1]])
+            calls.append({"task": t, "path": path, "host": op[1], "origin": f"{u.scheme}://{u.host}:{u.port}"})
         elif op[0].startswith("answer"):
             c = conns[op[1]]
             path = requests_on(c)[c["answered"]][0]
@@ -224,6 +235,10 @@ def jobs(tier):
     for s in seconds:
         out.append(dict(name="hist-" + "-".join(map(str, s)), func="history",
                         params=dict(k=k, first=[["get", "a"], s]), limits=lim))
+    # same host name, different port / scheme: three endpoints, three pool keys
+    out.append(dict(name="hist-endpoints", func="history",
+                    params=dict(k=6 if quick else 7, first=[["get", "a"], ["answer", 0]], hosts=["a", "a:81", "s:a"]),
+                    limits=lim))
     # two hosts with idle pooled connections while the pool's keep-alive timer runs
     out.append(dict(name="hist-two-idle-hosts", func="history",
                     params=dict(k=4 + (3 if quick else 4), first=[["get", "a"], ["get", "b"], ["answer", 0], ["answer", 1]]),
